@@ -45,3 +45,21 @@ Definition chk_self_calls (c : list (list Q) * list bool * list (list (list Q)) 
   let '(nodes, ang, obs, tol) := c in
   let '(calls, rest) := expected_calls 60 (qcm nodes) ang in
   calls_close calls obs tol && match rest with [] => true | _ => false end.
+
+(* the node-carrying model (Model/SelfIsectN.v at Qc): same observation as chk_self - recorded oracle answers in, reported pairs out *)
+From BZ Require Import Model.SelfIsectN.
+Definition qc_pairs (l : list (Q * Q)) : list (Qc * Qc) := map (fun p => (Q2Qc (fst p), Q2Qc (snd p))) l.
+Fixpoint pairs_eqb_qc (m : list (Qc * Qc)) (o : list (Q * Q)) : bool :=
+  match m, o with
+  | [], [] => true
+  | a :: m', b :: o' => near (this (fst a)) (fst b) && near (this (snd a)) (snd b) && pairs_eqb_qc m' o'
+  | _, _ => false
+  end.
+Definition chk_self_n (c : list (list Q) * list bool * list (list (Q * Q)) * list (Q * Q)) : bool :=
+  let '(rows, ang, ints, out) := c in
+  match self_isect_n QcOps Qc_eqb 60 (qcm rows) (mkS ang (map qc_pairs ints)) with
+  | Some (res, calls, st') =>
+      pairs_eqb_qc res out && Nat.eqb (List.length calls) (List.length ints) &&
+      match anglesN st', isectsN st' with [], [] => true | _, _ => false end
+  | None => false
+  end.
